@@ -3,7 +3,7 @@
    705-778); DecodeThread.run has no guard around _decode (445-498).  So: if every decoder is "tame" the dispatcher
    never raises and the thread never dies - and one leaked exception anywhere is enough to do both. *)
 From Coq Require Import ZArith List Bool Lia.
-Require Import PyIR.Base.Result PyIR.IW.IW PyIR.Engine.Match PyIR.Engine.Parse PyIR.Engine.NoCrash PyIR.Proto.Descriptor PyIR.Proto.C03Check PyIR.Proto.RoundTrip
+Require Import PyIR.Base.Result PyIR.IW.IW PyIR.Engine.Match PyIR.Engine.Parse PyIR.Engine.NoCrash PyIR.Engine.ParseM PyIR.Engine.ParseMProps PyIR.Proto.Descriptor PyIR.Proto.C03Check PyIR.Proto.RoundTrip
                PyIR.Ctl.Dispatcher PyIR.Ctl.Instance.
 Import ListNotations.
 Open Scope Z_scope.
@@ -102,8 +102,8 @@ End Thread.
 (* ------------------------------------------------------------------ one decoder instance (classes that do not override decode) *)
 Lemma base_decode_no_pyerr D t tol frame : is_pyerr (base_decode D t tol frame) = false.
 Proof.
-  unfold base_decode. pose proof (parseH_no_pyerr tol (d_lead_in D) (d_lead_out D) t frame) as H.
-  destruct (parseH tol (d_lead_in D) (d_lead_out D) t frame) as [p| | |]; cbn [bind]; try reflexivity; [|discriminate].
+  unfold base_decode. pose proof (parseC_no_pyerr tol (d_lead_in D) (d_lead_out D) t frame) as H.
+  destruct (parseC tol (d_lead_in D) (d_lead_out D) t frame) as [p| | |]; cbn [bind]; try reflexivity; [|discriminate].
   destruct (_ <? _); [reflexivity|]. destruct (_ <? _); reflexivity.
 Qed.
 
